@@ -89,6 +89,12 @@ CHECKS = {
         "note": TRUST + " The time bound itself (flush interval + I/O) is measured, not proved; the theorem is the liveness skeleton: ownership partition + coordinator coverage + pass completeness.",
         "design": "DESIGN.md section 5 C19",
     },
+    "C20": {
+        "category": "proof",
+        "text": "PARTIAL. Proved in Coq over Model/InFlight.v (io.rs InFlightBuffers): for every order of pushes, submissions, submission failures, completions and the final drop, a buffer the kernel may still read from is never freed, and only buffers marked in flight are kept alive; tied to the code by driving the real type with drop-tracking tokens (hook H8). The rest of the property -- use-after-free, double free, out-of-bounds access anywhere in the crate's unsafe code, under races with expiry, eviction, flushes, failed writes and shutdown -- cannot be expressed by an executable Gallina model of compiled Rust; it is exercised by re-running the concurrency (C07), race (C08), sequence (C01), fault (C09) and damaged-file (C17) engines under AddressSanitizer, with a self-test showing the instrumentation is live. A sanitizer report is a concrete violation; the absence of one is evidence for the executions explored, not a proof.",
+        "note": TRUST + " Memory safety of the epoch-managed ordered index (TreeSlot), AlignedBuffer and the scc/crossbeam dependencies is NOT proved; AddressSanitizer does not instrument the prebuilt standard library. Miri was not used (io_uring and threads with real files are outside what it supports).",
+        "design": "DESIGN.md section 5 C20",
+    },
     "C15": {
         "text": "Coq: the read-only recovery used for the migration source writes nothing for any image and outcome (source untouched); a successful migration spec means no destination existed, the source is v1/v2 with a successful read-only recovery, and the destination record list is exactly the recovered keys with identical timestamps and absolute expiries (TTL filtering off, so expired newest generations are copied and no older value can reappear). Tie: the real migrate() on engine-built and damaged legacy images vs migrate_spec of the source image (outcome, report, destination contents read back by the real store), with an oracle for non-destructiveness (source hash, no publication or temporary on failure, existing destination untouched, v3 result).",
         "note": TRUST + " Filesystem operations (hard_link publication, rollback, directory sync) are observed, not modelled; record-by-record verification inside migrate() is covered only through its outcome.",
@@ -154,6 +160,14 @@ def main():
     with open(os.path.join(HERE, "MANIFEST.json"), "w") as f:
         json.dump(man, f, indent=1)
     print("MANIFEST.json: %d checks, %d not claimed" % (len(checks), len(man["not_applicable"])))
+    # schema validation (the tooling venv has jsonschema)
+    try:
+        import subprocess
+        r = subprocess.run(["python3-vt", "-c", "import json,jsonschema;jsonschema.validate(json.load(open('/verif/MANIFEST.json')),json.load(open('/root/.vp/MANIFEST.schema.json')))"],
+                           stdout=subprocess.PIPE, stderr=subprocess.PIPE)
+        print("schema: %s" % ("valid" if r.returncode == 0 else "INVALID\n" + r.stderr.decode()[-600:]))
+    except Exception as e:
+        print("schema: not checked (%s)" % e)
 
 
 if __name__ == "__main__":
